@@ -26,10 +26,10 @@ impl Stats {
     }
 }
 
-fn errors_agree(r: &Rendered, model: &[(String, Vec<String>)], real: &[(String, Vec<String>)]) -> bool {
+fn errors_agree(_r: &Rendered, model: &[(String, Vec<String>)], real: &[(String, Vec<String>)]) -> bool {
     model.len() == real.len()
         && model.iter().zip(real.iter()).all(|(m, x)| {
-            m.0 == x.0 && (m.1 == x.1 || (m.0 == "parse" && x.1.is_empty() && m.1.len() == 1 && r.data_lua.contains_key(&m.1[0])))
+            m.0 == x.0 && m.1 == x.1
         })
 }
 
@@ -58,7 +58,7 @@ pub fn check_rendered(model: &mut Model, stats: &mut Stats, r: &Rendered, combos
                 continue;
             }
             Real::Timeout => {
-                failures.push(Failure { kind: "oracle", check: "hang".into(), what: "the bundler did not return within 20 s".into(), detail: json!({"combo": tag}) });
+                failures.push(Failure { kind: "oracle", check: "hang".into(), what: "the bundler did not return within 300 s".into(), detail: json!({"combo": tag}) });
                 continue;
             }
             _ => {}
@@ -124,9 +124,6 @@ pub fn check_rendered(model: &mut Model, stats: &mut Stats, r: &Rendered, combos
                         }
                     } else if message.contains("cyclic require detected") {
                         failures.push(Failure { kind: "oracle", check: "false-cycle".into(), what: "a cyclic require is reported on an acyclic graph".into(), detail: json!({"combo": tag, "message": message}) });
-                    }
-                    if !exp.unnamed_data.is_empty() {
-                        stats.add("inside_unnamed_data_region");
                     }
                     stats.add("defect_reported");
                 }
@@ -331,6 +328,10 @@ pub fn witnesses() -> Vec<(&'static str, Value)> {
 fn replay_known(model: &mut Model, report: &mut Report) {
     for entry in crate::report::known_findings("C05") {
         let id = entry["id"].as_str().unwrap_or("?").to_owned();
+        if entry["status"] == "fixed" {
+            // nothing is excused any more: the witness lives in corpus/C05 and must pass
+            continue;
+        }
         let witness = &entry["witness"];
         let rendered = match rendered_from_json(&witness["graph"]) {
             Some(r) => r,
